@@ -718,6 +718,64 @@ class VList(V):
         return "[" + ", ".join(x.describe() for x in self.items) + "]"
 
 
+class VSet(V):
+    """a mutable set; membership by (path-decided) equality"""
+
+    kind = "set"
+
+    def __init__(self, items=()):
+        self.items = []
+        self._pending = list(items)
+
+    def _norm(self, it, ctx):
+        for x in self._pending:
+            self._add(it, ctx, x)
+        self._pending = []
+
+    def _add(self, it, ctx, x):
+        if not any(ctx.truth(it.eq(ctx, x, y)) for y in self.items):
+            self.items.append(x)
+
+    def py_truthy(self, it, ctx):
+        self._norm(it, ctx)
+        return len(self.items) > 0
+
+    def py_len(self, it, ctx):
+        self._norm(it, ctx)
+        return VNum(len(self.items))
+
+    def py_iter(self, it, ctx):
+        self._norm(it, ctx)
+        return list(self.items)
+
+    def py_contains(self, it, ctx, item):
+        self._norm(it, ctx)
+        cs = [it.eq(ctx, item, x) for x in self.items]
+        if any(c is True for c in cs):
+            return True
+        cs = [c for c in cs if c is not False]
+        return z3.Or(*cs) if cs else False
+
+    def py_getattr(self, it, ctx, name):
+        if name == "add":
+            def add(it, ctx, a, k):
+                self._norm(it, ctx)
+                self._add(it, ctx, a[0])
+                return NONE
+            return VBuiltin("set.add", add)
+        if name == "update":
+            def upd(it, ctx, a, k):
+                self._norm(it, ctx)
+                for x in it.iterate(ctx, a[0]):
+                    self._add(it, ctx, x)
+                return NONE
+            return VBuiltin("set.update", upd)
+        raise Undecided(f"set.{name}")
+
+    def describe(self):
+        return "{" + ", ".join(x.describe() for x in self.items + self._pending) + "}"
+
+
 class VDict(V):
     kind = "dict"
 
